@@ -3,23 +3,23 @@ CONSTANTS
   Proc = {p1}
   BackupProcs = {p1}
   PruneProcs = {p1}
-  Version = {"v1", "v2"}
-  Needs <- NeedsB
+  Version = {"v1", "m"}
+  Needs <- NeedsDerive1
   KD = 1
-  MaxTime = 2
-  MaxPacks = 5
-  MaxCmds = 3
+  MaxTime = 1
+  MaxPacks = 4
+  MaxCmds = 4
   Concurrent = FALSE
   AllowInstant = TRUE
   AppendOnly = FALSE
   AllowDamage = FALSE
   AllowCrash = TRUE
-  AllowEarly = TRUE
+  AllowEarly = FALSE
   TickInPrune = TRUE
   UntypedDedup = FALSE
-  DeriveFrom <- NoDerive
-  DeriveForget = FALSE
+  DeriveFrom <- DeriveM1
+  DeriveForget = TRUE
   SnapFirst = FALSE
 VIEW View
-INVARIANTS AllReadable
+INVARIANTS TypeOK AllReadable BroughtBack NoDangling
 CHECK_DEADLOCK FALSE
